@@ -4,6 +4,13 @@ PROGRAMS = ["rlock,read:0,deref,rlock,deref,runlock,deref,runlock|swap:0,swap:0,
             "rlock,read:0,deref,yield,deref,runlock,rlock,read:0,deref,runlock|swap:0,sync|rlock,read:0,swap:1,deref,runlock",
             "rlock,read:1,deref,runlock,detach,attach,rlock,read:1,deref,runlock|swap:1,swap:1,swap:1,swap:1,swap:1|batch:3,sync",
             "retn:2;rlock,read:2,rlock,read:0,deref,runlock,runlock|swap:0,swap:2,retn:5|sync,swap:0;sync"]
+# tiny two-thread programs explored exhaustively with a larger pre-emption bound (the classic single-flip grace-period
+# bug needs three pre-emptions: reader between its phase snapshot and its store, writer between two grace periods,
+# reader before it leaves)
+DEEP = ["rlock,read:0,deref,runlock|swap:0,swap:0",
+        "rlock,rlock,read:0,runlock,deref,runlock|swap:0,sync,swap:0",
+        "rlock,read:0,deref,runlock|retn:1,swap:0,sync"]
+DEEP_VARIANTS = ["gpi", "gpb_cap1", "gpb_cap2", "gpt_cap2", "shb_cap2"]
 CONSTS = ["AbsInit <- RcuInit", "Step <- RcuStep", "XStep <- RcuXStep", "FinalOk <- RcuFinal"]
 
 
